@@ -154,9 +154,8 @@ SPxId SPxDantzigPR<R>::selectEnterSparseDim(R& best, SPxId& enterId)
       }
       else
       {
+         // the solver resets the flag without removing the index from the list (see updateCoTest()), so it may be 0 already
          this->thesolver->infeasibilities.remove(i);
-
-         assert(this->thesolver->isInfeasible[idx]);
          this->thesolver->isInfeasible[idx] = 0;
       }
    }
@@ -187,8 +186,8 @@ SPxId SPxDantzigPR<R>::selectEnterSparseCoDim(R& best, SPxId& enterId)
       }
       else
       {
+         // the solver resets the flag without removing the index from the list (see updateTest()), so it may be 0 already
          this->thesolver->infeasibilitiesCo.remove(i);
-         assert(this->thesolver->isInfeasibleCo[idx] > 0);
          this->thesolver->isInfeasibleCo[idx] = 0;
       }
    }
